@@ -49,6 +49,13 @@ Definition ebuf_open (content : list N) : ebuf :=
 
 Definition dirty_flag (e : ebuf) : bool := modified_flag (lb e).
 
+(* the buffer the editor starts with when NO file name is given (ex_init -> ec_edit with an empty path: bufs_open(""), open("")
+   fails, nothing is read, lbuf_saved(xb, 0)): the history was never cleared by lbuf_saved(lb, 1), so useq_last is still 0 --
+   and lbuf_seq answers useq_last whenever the undo cursor sits below the oldest entry.  The buffer has no file: the ghost disk
+   is the empty text.  It takes its name from the first write with a path (ec_write: `if (!ex_path()[0]) bufs[0].path = path`),
+   whose tail is then the one for the own path: DSaveWhole / DSaveOwn b e. *)
+Definition ebuf_new : ebuf := {| lb := lbuf_saved lbuf_make false; disk := [] |}.
+
 (* ------------------------------------------------------------------------------------------ *)
 (* the refusal logic of ec_quit / ec_edit / ec_buffer / ec_exec / ec_make (xwa = xaw = 0) *)
 
@@ -83,6 +90,28 @@ Definition guard_current (force : bool) (bufs : list ebuf) : list ebuf * bool :=
   else match bufs with
        | [] => ([], false)
        | b :: r => let (b', m) := bufs_modified b in (b' :: r, m)
+       end.
+
+(* ec_edit with an EMPTY path argument on a buffer that has a path -- ":e", ":e +cmd" (force = false), ":e!" (force = true):
+   the guard first (before the argument is looked at); then nothing is opened and nothing is switched, the function falls through
+   to  lbuf_rd(xb, fd, 0, lbuf_len(xb)); lbuf_saved(xb, 0)  = DReload of what the file holds.  Without `!` on a buffer reported
+   modified: refused, text and flag kept.  With `!`, or on a clean buffer: the text becomes the file's, ghost disk = text. *)
+Definition ec_edit_noarg (force : bool) (file : list N) (bufs : list ebuf) : list ebuf * bool :=
+  let (bufs1, refused) := guard_current force bufs in
+  if refused then (bufs1, true)
+  else match bufs1 with
+       | [] => ([], false)
+       | b :: r => (run_dop b (DReload file) :: r, false)
+       end.
+
+(* ":e %", ":e <own path>" (force = false), ":e! %" (force = true): the guard; then bufs_find(path) = 0 and bufs_switch(0) --
+   the command ends for the buffer (a bump) -- and nothing else: no read, the saved point stays where it is *)
+Definition ec_edit_own (force : bool) (bufs : list ebuf) : list ebuf * bool :=
+  let (bufs1, refused) := guard_current force bufs in
+  if refused then (bufs1, true)
+  else match bufs1 with
+       | [] => ([], false)
+       | b :: r => (bumpE b :: r, false)
        end.
 
 (* ------------------------------------------------------------------------------------------ *)
